@@ -10,6 +10,7 @@ import (
 
 	"github.com/database64128/shadowsocks-go/cred"
 	"github.com/database64128/shadowsocks-go/tlscerts"
+	"github.com/database64128/shadowsocks-go/verifhook"
 	"go.uber.org/zap"
 )
 
@@ -54,7 +55,9 @@ func (rn *reloadNotifier) start() {
 		return
 	}
 	rn.sigCh = make(chan os.Signal, 1)
-	signal.Notify(rn.sigCh, syscall.SIGUSR1)
+	if !verifhook.Skip("service.reloadNotifier.signal") {
+		signal.Notify(rn.sigCh, syscall.SIGUSR1)
+	}
 	go func() {
 		for range rn.sigCh {
 			for _, fn := range rn.fns {
